@@ -1,4 +1,5 @@
 import GapicModel.Model.Grpc
+import GapicModel.Pinned.Funcs
 /-
 C03 — gRPC calls reach the right RPC with the caller's request and return the reply.
 
@@ -535,5 +536,20 @@ example : templCodec nm (local_ "Book") = .plus ∧ templCodec nm emptyA = .pb2 
 
 /-- `hissued` and `ArgFits` are satisfiable together with a client-streaming method -/
 example : ArgFits (μ := Nat) (δ := Nat) (meth "Chat" (local_ "Book") true true) (.iter [1, 2]) := rfl
+
+/-! ## `snake` IS the code's current `to_snake_case`
+`Pinned.Funcs.to_snake_case` is the Lean translation of `gapic/utils/case.py: to_snake_case` produced by
+harness/pyfun2lean.py (the four patterns re-parsed by CPython from the current source, the order of the substitutions and
+the final `lower()` read off the function body); `Bridge.Funcs.to_snake_case` re-proves on every run that translating
+/repo's current source gives the same definition. -/
+
+section Translated
+open GapicModel.PyRt
+
+theorem snake_is_translated (s : List Char) : snake s = Pinned.Funcs.to_snake_case s := by
+  simp only [snake, snakeSubs, GapicModel.Model.Grpc.lower, Pinned.Funcs.to_snake_case, reSub, PyRt.lower]
+  rfl
+
+end Translated
 
 end GapicModel.Props.C03
